@@ -311,3 +311,32 @@ fn make_digits(a: &impl BigInteger, w: usize, num_bits: usize) -> impl Iterator<
         digit
     })
 }
+
+/// Verification hooks (compiled only with `--cfg arkworks_rs_algebra_verif`): public
+/// wrappers around the private bucket methods and the digit recoding, so that an
+/// external harness can exercise each of them directly.
+#[cfg(arkworks_rs_algebra_verif)]
+pub mod verif_hooks {
+    use super::*;
+
+    /// The plain (unsigned-digit) bucket method `msm_bigint`.
+    pub fn msm_bigint_plain<V: VariableBaseMSM>(
+        bases: &[V::MulBase],
+        bigints: &[<V::ScalarField as PrimeField>::BigInt],
+    ) -> V {
+        super::msm_bigint::<V>(bases, bigints)
+    }
+
+    /// The signed-digit bucket method `msm_bigint_wnaf`.
+    pub fn msm_bigint_signed<V: VariableBaseMSM>(
+        bases: &[V::MulBase],
+        bigints: &[<V::ScalarField as PrimeField>::BigInt],
+    ) -> V {
+        super::msm_bigint_wnaf::<V>(bases, bigints)
+    }
+
+    /// The signed radix-2^w digits produced by `make_digits`.
+    pub fn make_digits_vec(a: &impl BigInteger, w: usize, num_bits: usize) -> Vec<i64> {
+        super::make_digits(a, w, num_bits).collect()
+    }
+}
